@@ -21,6 +21,8 @@ const (
 	c11CeaseOpenSent
 	c11CeaseOpenConfirm
 	c11CeaseEstablished
+	c11WriteFailsOpenSent    // the reset is seen as a failed write: answering the remote's OPEN (KEEPALIVE) fails
+	c11WriteFailsEstablished // a keep-alive cannot be written any more
 	c11NumFaults
 )
 
@@ -72,7 +74,7 @@ func c11WaitForDial(e *penv, idle, retry time.Duration, attemptsBefore int) int 
 }
 
 func Verif_C11_fault_then_recover() {
-	verifNote("active peer, idle-hold and connect-retry times symbolic (32-bit milliseconds); one fault from {dial refused, dial stalled past connect-retry, FIN/RST in OpenSent, FIN in OpenConfirm/Established, Cease received in OpenSent/OpenConfirm/Established}, optionally preceded by another fault (sequences of 1..2 faults); then a well-behaved remote; base schedule; time = timer contract (armed durations), not simulated")
+	verifNote("active peer, idle-hold and connect-retry times symbolic (32-bit milliseconds); one fault from {dial refused, dial stalled past connect-retry, FIN/RST in OpenSent, FIN in OpenConfirm/Established, Cease received in OpenSent/OpenConfirm/Established, a reset seen as a failed write (of the KEEPALIVE answering the OPEN in OpenSent; of a periodic KEEPALIVE in Established)}, optionally preceded by another fault (sequences of 1..2 faults); then a well-behaved remote; base schedule; time = timer contract (armed durations), not simulated")
 	e, idle, retry := c11Env(false)
 	nf := 1 + verifChoose("faults", 2)
 	e.dial.outcomes = nil
@@ -98,7 +100,7 @@ func Verif_C11_fault_then_recover() {
 		var c *symConn
 		switch k {
 		case c11Refuse, c11Stall:
-		case c11FinOpenSent, c11RstOpenSent, c11CeaseOpenSent:
+		case c11FinOpenSent, c11RstOpenSent, c11CeaseOpenSent, c11WriteFailsOpenSent:
 			c = e.bring(out, stOpenSent)
 		case c11FinOpenConfirm, c11CeaseOpenConfirm:
 			c = e.bring(out, stOpenConfirm)
@@ -112,6 +114,14 @@ func Verif_C11_fault_then_recover() {
 			c.remoteClose(2)
 		case c11CeaseOpenSent, c11CeaseOpenConfirm, c11CeaseEstablished:
 			c.send(verifMsgNotification, []byte{NOTIF_CODE_CEASE, verifU8("cease-subcode")})
+		case c11WriteFailsOpenSent:
+			c.failWrites = true
+			c.send(verifMsgOpen, e.openBody())
+		case c11WriteFailsEstablished:
+			c.failWrites = true
+			if f := e.p.fsms[out]; f != nil && f.keepAliveTimer != nil {
+				verifFireTimer(f.keepAliveTimer)
+			}
 		}
 		verifQuiesce()
 		if c != nil {
@@ -241,3 +251,12 @@ func Verif_C11_outbound_establishes_after_inbound_session() {
 	verifCover("re-established-outbound")
 	e.p.stop()
 }
+
+// C02 on the same scenario: the valid OPEN answering the redial after an inbound session ended must be accepted
+// (acceptability of an OPEN does not depend on what happened on the peer's other connection before)
+func Verif_C02_valid_open_accepted_on_redial_after_inbound_session() {
+	Verif_C11_outbound_establishes_after_inbound_session()
+}
+
+// C20 on the inbound-ends scenario: a peer added as passive never dials, whatever its inbound connections do
+func Verif_C20_passive_peer_never_dials() { Verif_C11_inbound_ends_and_passive() }
